@@ -6,8 +6,8 @@ import warnings
 from . import formats_common as fc
 from .common import Oracle, Suite, errname, merge
 
-GEN_UNITS = ["B64", "Handlers", "PyUnicode", "PyCase", "StaticFmt"]
-LEAN_TARGETS = ["PasslibVerif.Props.C07", "PasslibVerif.Props.C07Static", "PasslibVerif.Props.C07DesBcrypt", "PasslibVerif.Props.C07Pbkdf"]
+GEN_UNITS = ["B64", "Handlers", "PyUnicode", "PyCase", "StaticFmt", "MiscTables"]
+LEAN_TARGETS = ["PasslibVerif.Props.C07", "PasslibVerif.Props.C07Static", "PasslibVerif.Props.C07DesBcrypt", "PasslibVerif.Props.C07Pbkdf", "PasslibVerif.Props.C07Misc"]
 ASSUMPTIONS = [
     "formats without a Lean model yet are explored by the real-code round-trip oracle only (listed under only_correspondence_checked)",
 ]
@@ -28,7 +28,11 @@ def correspond(ctx):
     o_rt = Oracle(ctx, "all-hashers-roundtrip")
     for name in fc.MODELLED:
         h = fc.handler(name)
-        for hs in fc.gen_hashes(name, rng, (3 if name in fc.EXPENSIVE else 8) if not ctx.thorough else 60, vary_secret=True):
+        if name in fc._misc.ADAPTERS:
+            hashes = fc.gen_model_hashes(name, rng, 8 if not ctx.thorough else 60)
+        else:
+            hashes = fc.gen_hashes(name, rng, (3 if name in fc.EXPENSIVE else 8) if not ctx.thorough else 60, vary_secret=True)
+        for hs in hashes:
             for v in fc.variants(h, name, hs, rng):
                 s_fmt.add(f"fmt parse {name} {fc.cps(v)}", lambda v=v: fc.parse_dump(name, v), name + ":parse")
                 s_fmt.add(f"fmt reparse {name} {fc.cps(v)}", lambda v=v: fc.reparse(name, v), name + ":render")
@@ -38,6 +42,16 @@ def correspond(ctx):
             if name in fc.IDENTIFY_CHECKED:
                 for m in fc.variants(h, name, hs, rng) + muts:
                     s_fmt.add(f"fmt identify {name} {fc.cps(m)}", lambda m=m: fc.identify(name, m), name + ":identify")
+        # hand-picked edge cases of the Misc family adapters (parse, re-render, identify)
+        for x in fc.extra_cases(name, rng):
+            s_fmt.add(f"fmt parse {name} {fc.cps(x)}", lambda x=x: fc.parse_dump(name, x), name + ":parse-edge")
+            s_fmt.add(f"fmt reparse {name} {fc.cps(x)}", lambda x=x: fc.reparse(name, x), name + ":render-edge")
+            s_fmt.add(f"fmt identify {name} {fc.cps(x)}", lambda x=x: fc.identify(name, x), name + ":identify")
+    # CPython's lenient base64 decoder (binascii.a2b_base64) as modelled for b64s_decode / ab64_decode / b64decode
+    from . import formats_misc as fm
+
+    for data, ans in fm.a2b_cases(rng, 3000 if not ctx.thorough else 60000):
+        s_fmt.add_raw(f"fmt a2b {fc.cps(data)}", ans, "a2b_base64")
     # every registered hasher: real-code round trip
     skipped = []
     for name in sorted(registry.list_crypt_handlers()):
